@@ -135,6 +135,22 @@ def zsel(zname, J):
     return ['i', ['v', zname], {'l': J}]
 
 
+def zsel2(rng, zname, J, n):
+    """the components J of a random array of length n, addressed in one of several equivalent ways (contiguous slice,
+    stepped slice, negative index, index list in any order)"""
+    J = sorted(J)
+    forms = [zsel(zname, J)]
+    if len(J) == 1:
+        forms.append(['i', ['v', zname], {'l': [J[0] - n]}])                       # negative position
+    if len(J) >= 2 and all(J[k + 1] - J[k] == J[1] - J[0] for k in range(len(J) - 1)) and J[1] - J[0] > 1:
+        forms.append(['i', ['v', zname], {'s': [J[0], J[-1] + 1, J[1] - J[0]]}])   # stepped slice
+    if len(J) >= 2:
+        Jp = list(J)
+        rng.shuffle(Jp)
+        forms.append(['i', ['v', zname], {'l': Jp}])                                # index list, any order
+    return rng.choice(forms)
+
+
 def gen_mask_calls(rng, d, n, groups=None, yshape=None):
     """dependency masks per entry built by adapt calls on the whole decision or on slices; each call names
     components of ONE random array (groups = [(lo, hi)] column ranges of the arrays)"""
@@ -147,18 +163,43 @@ def gen_mask_calls(rng, d, n, groups=None, yshape=None):
     for _ in range(rng.randint(0, 3)):
         if d2 is not None and rng.random() < 0.7:
             i_ = rng.randrange(yshape[0])
-            if rng.random() < 0.5:
+            u_ = rng.random()
+            if u_ < 0.3:
                 rows = list(range(i_ * d2, (i_ + 1) * d2))          # one row of the 2-D decision
-                tsel = i_
-            else:
+                tsel = i_ if rng.random() < 0.6 else i_ - yshape[0]  # (also counted from the end)
+            elif u_ < 0.6:
                 j_ = rng.randrange(d2)
                 rows = [i_ * d2 + j_]                                # one entry
-                tsel = {'t': [i_, j_]}
+                tsel = {'t': [i_, j_]} if rng.random() < 0.7 else {'t': [i_ - yshape[0], j_ - d2]}
+            elif u_ < 0.8:
+                j_ = rng.randrange(d2)
+                rows = [k_ * d2 + j_ for k_ in range(yshape[0])]     # one column
+                tsel = {'t': [{'all': 1}, j_]}
+            else:
+                a_ = rng.randrange(d2)
+                b_ = rng.randint(a_ + 1, d2)
+                rows = [i_ * d2 + j_ for j_ in range(a_, b_)]        # part of a row
+                tsel = {'t': [i_, [a_, b_]]}
         elif d2 is None and d > 1 and rng.random() < 0.6 and (yshape is None or len(yshape) == 1):
-            a = rng.randrange(d)
-            b = rng.randint(a + 1, d)
-            rows = list(range(a, b))
-            tsel = [a, b]
+            u_ = rng.random()
+            if u_ < 0.5:
+                a = rng.randrange(d)
+                b = rng.randint(a + 1, d)
+                rows = list(range(a, b))
+                tsel = [a, b]
+            elif u_ < 0.65:
+                a = rng.randrange(d)
+                rows = [a]
+                tsel = a - d                                         # one entry counted from the end
+            elif u_ < 0.8:
+                a = rng.randrange(min(2, d))
+                rows = list(range(a, d, 2))
+                tsel = {'s': [a, None, 2]}                           # stepped slice
+            else:
+                rows = sorted(rng.sample(range(d), rng.randint(1, d)))
+                shown = list(rows)
+                rng.shuffle(shown)
+                tsel = {'l': shown}                                  # index list, any order
         else:
             rows = list(range(d))
             tsel = None
@@ -277,7 +318,7 @@ def gen_combo(rng, cfg, kind):
         tgt = ['v', 'y'] if tsel is None else ['i', ['v', 'y'], tsel]
         an, lo, hi = [a_ for a_ in arrays if a_[1] <= J[0] < a_[2]][0]
         # affine adapt calls of one decision are kept in generation order (legality of later calls depends on it)
-        sid = add({'op': 'adapt', 'tgt': tgt, 'to': zsel(an, [j - lo for j in J])}, [s_y] + s_zs + ([prev] if prev else []), role='adapt_aff')
+        sid = add({'op': 'adapt', 'tgt': tgt, 'to': zsel2(rng, an, [j - lo for j in J], hi - lo)}, [s_y] + s_zs + ([prev] if prev else []), role='adapt_aff')
         prev = sid
         s_ad.append(sid)
 
@@ -305,7 +346,7 @@ def gen_combo(rng, cfg, kind):
         for tsel, J in mq:
             tgt = ['v', 'q'] if tsel is None else ['i', ['v', 'q'], tsel]
             an, lo, hi = [a_ for a_ in arrays if a_[1] <= J[0] < a_[2]][0]
-            prevq = add({'op': 'adapt', 'tgt': tgt, 'to': zsel(an, [j - lo for j in J])}, [s_q] + s_zs + ([prevq] if prevq else []), role='adapt_aff')
+            prevq = add({'op': 'adapt', 'tgt': tgt, 'to': zsel2(rng, an, [j - lo for j in J], hi - lo)}, [s_q] + s_zs + ([prevq] if prevq else []), role='adapt_aff')
             s_adq.append(prevq)
         s_ad = s_ad + s_adq + [s_q, s_g]
         extra = {'dq': dq, 'cq': cq, 'wq': wq, 'maskq': maskq, 'pq': pq.partition(), 'eq': pq.event_of()}
